@@ -39,10 +39,12 @@ def harness(cfg, nprior):
                     s = E.input('s', d + Fraction(1, 4)); u = E.input('u', d + Fraction(1, 2)); t = E.input('t', d + Fraction(3, 4))
                 else:
                     sc = 10 ** grid
-                    s = E.input_int('ks', int((d + Fraction(1, 5)) * sc)) / sc
-                    u = E.input_int('ku', int((d + Fraction(1, 2)) * sc)) / sc
-                    t = E.input_int('kt', int((d + Fraction(4, 5)) * sc)) / sc
-                E.assume((s >= lo) & (t <= hi) & (s < u) & (u < t))
+                    klo, khi = int(lo.v * sc), int(hi.v * sc)
+                    ks = E.input_int('ks', klo, lo=klo, hi=khi); ku = E.input_int('ku', klo + 1, lo=klo, hi=khi); kt = E.input_int('kt', klo + 2, lo=klo, hi=khi)
+                    E.assume((ks < ku) & (ku < kt))
+                    s = E.concretize_int(ks, klo, khi) / sc; u = E.concretize_int(ku, klo, khi) / sc; t = E.concretize_int(kt, klo, khi) / sc
+                if grid is None:
+                    E.assume((s >= lo) & (t <= hi) & (s < u) & (u < t))
                 ncalls = len(mon.calls)
                 r_st = bm(s, t, **kw)
                 pieces = mon.calls[ncalls][2] if len(mon.calls) > ncalls else []
@@ -162,11 +164,11 @@ def configs(tier):
         (dict(levy='davie', size=(1, 2), cache_size=2), 1),
         (dict(levy='foster', size=(1, 2), cache_size=45), 0),
         (dict(levy='space-time', size=(1,), cache_size=45, dt=0.5), 1),
-        (dict(levy='none', size=(1,), cache_size=45, tol=0.1), 1),
-        (dict(levy='space-time', size=(1,), cache_size=45, tol=0.1, halfway=True), 0),
+        (dict(levy='none', size=(1,), cache_size=45, tol=0.1, t1=Fraction(1, 2)), 1),
+        (dict(levy='space-time', size=(1,), cache_size=45, tol=0.1, halfway=True, t1=Fraction(1, 2)), 0),
         (dict(wrapper='reverse', levy='space-time', size=(1,), cache_size=45), 1),
         (dict(wrapper='path', levy='none', size=(1,)), 1),
-        (dict(wrapper='tree', levy='none', size=(1,), tol=0.1), 0),
+        (dict(wrapper='tree', levy='none', size=(1,), tol=0.1, t1=Fraction(1, 2)), 0),
     ]
     if tier == 'quick':
         return quick
@@ -177,8 +179,8 @@ def configs(tier):
         (dict(levy='davie', size=(2, 2), cache_size=1), 1),
         (dict(levy='foster', size=(1, 2), cache_size=0), 1),
         (dict(levy='space-time', size=(1,), cache_size=1, dt='sym'), 1),
-        (dict(levy='space-time', size=(1,), cache_size=3, tol=0.1, halfway=True), 1),
-        (dict(wrapper='tree', levy='none', size=(1,), tol=0.1), 1),
+        (dict(levy='space-time', size=(1,), cache_size=3, tol=0.1, halfway=True, t1=Fraction(1, 2)), 1),
+        (dict(wrapper='tree', levy='none', size=(1,), tol=0.1, t1=Fraction(1, 2)), 1),
         (dict(levy='space-time', size=(1,), cache_size=45, supply_W=True, supply_H=True, sym_ends=True), 1),
     ]
     return quick + more
